@@ -490,6 +490,18 @@ func tailFile(path string, n int) string {
 		return ""
 	}
 	ls := strings.Split(string(b), "\n")
+	// a SIGQUIT dump: the main goroutine is what matters
+	if strings.Contains(string(b), "SIGQUIT: quit") {
+		for i, l := range ls {
+			if strings.HasPrefix(l, "goroutine 1 ") {
+				end := i + n
+				if end > len(ls) {
+					end = len(ls)
+				}
+				return "SIGQUIT: quit\n" + strings.Join(ls[i:end], "\n")
+			}
+		}
+	}
 	// prefer the first fatal / panic line region
 	for i, l := range ls {
 		if strings.HasPrefix(l, "fatal error:") || strings.HasPrefix(l, "panic:") {
